@@ -16,17 +16,17 @@ namespace Icinga.C09
 /-- Macro expansion always terminates: `internalResolve` is a total function, defined by structural
     recursion on the remaining recursion budget (16 − recursionLevel) and on the token list; for every
     input it yields a value or one of the listed errors. -/
-theorem macro_terminates (objs : List Obj) (fuel : Nat) (esc : Bool) (s : Bytes) :
-    (∃ v m, internalResolve objs fuel esc s = .ok (v, m)) ∨ (∃ e, internalResolve objs fuel esc s = .error e) := by
-  cases h : internalResolve objs fuel esc s with
+theorem macro_terminates (look : Bytes → Lookup) (fuel : Nat) (esc : Bool) (s : Bytes) :
+    (∃ v m, internalResolve look fuel esc s = .ok (v, m)) ∨ (∃ e, internalResolve look fuel esc s = .error e) := by
+  cases h : internalResolve look fuel esc s with
   | ok r => exact .inl ⟨r.1, r.2, rfl⟩
   | error e => exact .inr ⟨e, rfl⟩
 
 /-- Recursive custom variables are bounded: a variable whose value is a reference to itself yields the
     recursion error from every entry level (never divergence, never a value). -/
-theorem depth_bounded (objs : List Obj) (n : Bytes) (hn : DOLLAR ∉ n) (hne : n ≠ [])
-    (hself : resolveMacro objs n = .found (.str (DOLLAR :: (n ++ [DOLLAR]))) true) :
-    ∀ fuel esc, internalResolve objs fuel esc (DOLLAR :: (n ++ [DOLLAR])) = .error .recursion := by
+theorem depth_bounded (look : Bytes → Lookup) (n : Bytes) (hn : DOLLAR ∉ n) (hne : n ≠ [])
+    (hself : look n = .found (.str (DOLLAR :: (n ++ [DOLLAR]))) true) :
+    ∀ fuel esc, internalResolve look fuel esc (DOLLAR :: (n ++ [DOLLAR])) = .error .recursion := by
   have htok : tokenize (DOLLAR :: (n ++ [DOLLAR])) = [.lit [], .mac n, .lit []] := by
     have := tokenize_macro [] n [] (by simp) hn
     simpa [tokenize, tok] using this
@@ -35,28 +35,28 @@ theorem depth_bounded (objs : List Obj) (n : Bytes) (hn : DOLLAR ∉ n) (hne : n
   | zero => intro esc; rfl
   | succ f ih =>
     intro esc
-    simp only [internalResolve, htok, expandMacro, hself, hne, if_false]
+    simp only [internalResolve, htok, expandMacro, expandCore, hself, hne, if_false]
     simp [ih false, bind, Except.bind]
 
 example : internalResolve
-    [{ rname := [104], vars := [([115], .str [36, 115, 36])], attrs := [] }] 15 false [36, 115, 36] = .error .recursion := by decide
+    (resolveMacro [{ rname := [104], vars := [([115], .str [36, 115, 36])], attrs := [] }]) 15 false [36, 115, 36] = .error .recursion := by decide
 
 /-! ## `$$`, verbatim insertion -/
 
 /-- The rest of a string after a macro is processed on its own (the inserted text is not rescanned). -/
-abbrev restOf (objs : List Obj) (fuel : Nat) (esc : Bool) (q : Bytes) : Except Err (Bytes × Bool) :=
-  concatToks objs (fun t => internalResolve objs fuel false t) esc (tokenize q)
+abbrev restOf (look : Bytes → Lookup) (fuel : Nat) (esc : Bool) (q : Bytes) : Except Err (Bytes × Bool) :=
+  concatToks look (fun t => internalResolve look fuel false t) esc (tokenize q)
 
-theorem expand_dollar (objs : List Obj) (rec : Bytes → Res) (hempty : resolveMacro objs [] = .notFound) :
-    expandMacro objs rec false [] = .ok (.str [DOLLAR], false) := by
-  simp [expandMacro, hempty, pure, Except.pure, bind, Except.bind]
+theorem expand_dollar (look : Bytes → Lookup) (rec : Bytes → Res) (hempty : look [] = .notFound) :
+    expandMacro look rec false [] = .ok (.str [DOLLAR], false) := by
+  simp [expandMacro, expandCore, hempty, pure, Except.pure, bind, Except.bind]
 
 /-- `$$` yields a literal dollar sign, wherever it stands: `p $$ q` resolves to `p`, `$`, and whatever
     `q` resolves to on its own (no variable is named ""). -/
-theorem dollar_escape (objs : List Obj) (fuel : Nat) (p q : Bytes) (hp : DOLLAR ∉ p)
-    (hempty : resolveMacro objs [] = .notFound) :
-    internalResolve objs (fuel + 1) false (p ++ DOLLAR :: DOLLAR :: q)
-      = (restOf objs fuel false q).map (fun r => (.str (p ++ DOLLAR :: r.1), r.2)) := by
+theorem dollar_escape (look : Bytes → Lookup) (fuel : Nat) (p q : Bytes) (hp : DOLLAR ∉ p)
+    (hempty : look [] = .notFound) :
+    internalResolve look (fuel + 1) false (p ++ DOLLAR :: DOLLAR :: q)
+      = (restOf look fuel false q).map (fun r => (.str (p ++ DOLLAR :: r.1), r.2)) := by
   have htok := tokenize_macro p [] q hp (by simp)
   simp only [List.nil_append] at htok
   simp only [internalResolve, htok]
@@ -66,25 +66,25 @@ theorem dollar_escape (objs : List Obj) (fuel : Nat) (p q : Bytes) (hp : DOLLAR 
     obtain ⟨rfl, hn, hq⟩ := h
     subst hn
     have hq' : tokenize q = [.lit []] := by simpa using hq
-    rw [expand_dollar objs _ hempty]
+    rw [expand_dollar look _ hempty]
     simp [restOf, hq', concatToks, Except.map, pure, Except.pure, bind, Except.bind]
-  · simp only [concatToks, expand_dollar objs _ hempty, bind, Except.bind, Val.scalarBytes, restOf]
-    cases concatToks objs (fun t => internalResolve objs fuel false t) false (tokenize q) with
+  · simp only [concatToks, expand_dollar look _ hempty, bind, Except.bind, Val.scalarBytes, restOf]
+    cases concatToks look (fun t => internalResolve look fuel false t) false (tokenize q) with
     | error e => rfl
     | ok r => simp [Except.map, pure, Except.pure]
 
-theorem expand_plain (objs : List Obj) (rec : Bytes → Res) (m v : Bytes) (hm : m ≠ [])
-    (hv : resolveMacro objs m = .found (.str v) false) :
-    expandMacro objs rec false m = .ok (.str v, false) := by
-  simp [expandMacro, hv, hm, pure, Except.pure, bind, Except.bind]
+theorem expand_plain (look : Bytes → Lookup) (rec : Bytes → Res) (m v : Bytes) (hm : m ≠ [])
+    (hv : look m = .found (.str v) false) :
+    expandMacro look rec false m = .ok (.str v, false) := by
+  simp [expandMacro, expandCore, hv, hm, pure, Except.pure, bind, Except.bind]
 
 /-- Verbatim insertion: the value `v` of a non-recursive macro (an attribute such as `address`, the
     previous plugin output, …) is inserted untouched whatever bytes it contains — `$`, quotes, newlines —
     and is not scanned again; the text after the macro is processed exactly as it would be on its own. -/
-theorem verbatim_insertion (objs : List Obj) (fuel : Nat) (p m v q : Bytes) (hp : DOLLAR ∉ p) (hmd : DOLLAR ∉ m)
-    (hm : m ≠ []) (hv : resolveMacro objs m = .found (.str v) false) :
-    internalResolve objs (fuel + 1) false (p ++ DOLLAR :: (m ++ DOLLAR :: q))
-      = (restOf objs fuel false q).map (fun r => (.str (p ++ v ++ r.1), r.2)) := by
+theorem verbatim_insertion (look : Bytes → Lookup) (fuel : Nat) (p m v q : Bytes) (hp : DOLLAR ∉ p) (hmd : DOLLAR ∉ m)
+    (hm : m ≠ []) (hv : look m = .found (.str v) false) :
+    internalResolve look (fuel + 1) false (p ++ DOLLAR :: (m ++ DOLLAR :: q))
+      = (restOf look fuel false q).map (fun r => (.str (p ++ v ++ r.1), r.2)) := by
   have htok := tokenize_macro p m q hp hmd
   simp only [internalResolve, htok]
   split
@@ -92,22 +92,22 @@ theorem verbatim_insertion (objs : List Obj) (fuel : Nat) (p m v q : Bytes) (hp 
     simp only [List.cons.injEq, Tok.lit.injEq, Tok.mac.injEq] at h
     obtain ⟨rfl, rfl, hq⟩ := h
     have hq' : tokenize q = [.lit []] := by simpa using hq
-    simp [restOf, hq', concatToks, expand_plain objs _ _ v hm hv, Except.map, pure, Except.pure, bind, Except.bind]
-  · simp only [concatToks, expand_plain objs _ m v hm hv, bind, Except.bind, Val.scalarBytes, restOf]
-    cases concatToks objs (fun t => internalResolve objs fuel false t) false (tokenize q) with
+    simp [restOf, hq', concatToks, expand_plain look _ _ v hm hv, Except.map, pure, Except.pure, bind, Except.bind]
+  · simp only [concatToks, expand_plain look _ m v hm hv, bind, Except.bind, Val.scalarBytes, restOf]
+    cases concatToks look (fun t => internalResolve look fuel false t) false (tokenize q) with
     | error e => rfl
     | ok r => simp [Except.map, pure, Except.pure]
 
 /-- A string that consists of one macro only yields exactly the macro's value. -/
-theorem lone_macro_verbatim (objs : List Obj) (fuel : Nat) (m v : Bytes) (hmd : DOLLAR ∉ m)
-    (hm : m ≠ []) (hv : resolveMacro objs m = .found (.str v) false) :
-    internalResolve objs (fuel + 1) false (DOLLAR :: (m ++ [DOLLAR])) = .ok (.str v, false) := by
-  have := verbatim_insertion objs fuel [] m v [] (by simp) hmd hm hv
+theorem lone_macro_verbatim (look : Bytes → Lookup) (fuel : Nat) (m v : Bytes) (hmd : DOLLAR ∉ m)
+    (hm : m ≠ []) (hv : look m = .found (.str v) false) :
+    internalResolve look (fuel + 1) false (DOLLAR :: (m ++ [DOLLAR])) = .ok (.str v, false) := by
+  have := verbatim_insertion look fuel [] m v [] (by simp) hmd hm hv
   simpa [restOf, tokenize, tok, concatToks, Except.map, pure, Except.pure, bind, Except.bind] using this
 
 -- hypotheses are satisfiable, the value may contain `$`, `'`, blanks, newline: host.address = "$(x)' \n"
 example : internalResolve
-    [{ rname := [104], vars := [], attrs := [([97], .str [36, 40, 120, 41, 39, 32, 10])] }] 14 false
+    (resolveMacro [{ rname := [104], vars := [], attrs := [([97], .str [36, 40, 120, 41, 39, 32, 10])] }]) 14 false
     ([45, 72, 32] ++ 36 :: ([97] ++ 36 :: [32, 36, 36]))
     = .ok (.str [45, 72, 32, 36, 40, 120, 41, 39, 32, 10, 32, 36], false) := by decide
 
@@ -166,53 +166,6 @@ theorem shell_quote_needs_unquoted_counterexample :
 
 /-! ## Argument vector: shape and values -/
 
-/-- What an argument contributes, abstracted from the bytes of its values. -/
-inductive Slot
-  | key          -- the key alone
-  | value        -- one value, alone in its element
-  | keyValue     -- key ++ separator ++ one value, in one element
-  | drop         -- one value consumed, nothing emitted (`skip_value`)
-  deriving Repr, DecidableEq
-
-/-- `some n`: an array of `n` elements; `none`: a scalar. -/
-def Val.shape : Val → Option Nat
-  | .arr l => some l.length
-  | _ => none
-
-def Val.elems : Val → List Bytes
-  | .arr l => l
-  | .str b => [b]
-  | .empty => [[]]
-
-def elemSlots (addKey addValue hasSep : Bool) : List Slot :=
-  if addKey && addValue && hasSep then [.keyValue]
-  else (if addKey then [.key] else []) ++ [if addValue then .value else .drop]
-
-def arrSlots (skipKey repeatKey skipValue hasSep : Bool) : Bool → Nat → List Slot
-  | _, 0 => []
-  | first, n + 1 =>
-    elemSlots (if first then !skipKey else !skipKey && repeatKey) (!skipValue) hasSep
-      ++ arrSlots skipKey repeatKey skipValue hasSep false n
-
-/-- The layout of an argument: a function of its flags and of the SHAPE of its value only. -/
-def slots (skipKey repeatKey skipValue hasSep : Bool) : Option Nat → List Slot
-  | none => elemSlots (!skipKey) (!skipValue) hasSep
-  | some n => arrSlots skipKey repeatKey skipValue hasSep true n
-
-/-- Filling a layout: every value-consuming slot takes the next value, whole, into one element. -/
-def fill (key sep : Bytes) : List Slot → List Bytes → List Bytes
-  | [], _ => []
-  | .key :: r, vs => key :: fill key sep r vs
-  | .value :: r, v :: vs => v :: fill key sep r vs
-  | .keyValue :: r, v :: vs => (key ++ sep ++ v) :: fill key sep r vs
-  | .drop :: r, _ :: vs => fill key sep r vs
-  | _ :: _, [] => []
-
-def consumers : List Slot → Nat
-  | [] => 0
-  | .key :: r => consumers r
-  | _ :: r => consumers r + 1
-
 theorem fill_elem (key v : Bytes) (sep : Option Bytes) (addKey addValue : Bool) (rest : List Slot) (vs : List Bytes) :
     fill key (sep.getD []) (elemSlots addKey addValue sep.isSome ++ rest) (v :: vs)
       = addArgumentHelper key v addKey addValue sep ++ fill key (sep.getD []) rest vs := by
@@ -268,33 +221,33 @@ example : emitArg { order := 0, skipKey := false, repeatKey := false, skipValue 
 
 /-- A missing optional macro drops only its argument: the other arguments resolve as if the entry
     were not in the dictionary. -/
-theorem optional_missing_drops_only_its_argument (objs : List Obj) (level : Nat) (a : ArgSpec) (v : Val)
+theorem optional_missing_drops_only_its_argument (look : Bytes → Lookup) (level : Nat) (a : ArgSpec) (v : Val)
     (hset : a.setIf.isEmpty = true) (hreq : a.required = false)
-    (hmiss : resolveMacros objs (level + 1) false a.value = .ok (v, true)) (pre post : List ArgSpec) :
-    resolveArg objs level a = .ok .skip ∧
-    resolveArgs objs level (pre ++ a :: post) = resolveArgs objs level (pre ++ post) := by
-  have hskip : resolveArg objs level a = .ok .skip := by
+    (hmiss : resolveMacros look (level + 1) false a.value = .ok (v, true)) (pre post : List ArgSpec) :
+    resolveArg look level a = .ok .skip ∧
+    resolveArgs look level (pre ++ a :: post) = resolveArgs look level (pre ++ post) := by
+  have hskip : resolveArg look level a = .ok .skip := by
     simp [resolveArg, hset, hmiss, hreq, bind, Except.bind, pure, Except.pure]
   refine ⟨hskip, ?_⟩
   induction pre with
   | nil =>
     simp only [List.nil_append, resolveArgs, hskip, bind, Except.bind]
-    cases resolveArgs objs level post <;> rfl
+    cases resolveArgs look level post <;> rfl
   | cons x xs ih => simp only [List.cons_append, resolveArgs, ih]
 
 /-- A missing required macro fails the resolution (the check becomes UNKNOWN, `ExecuteCommand` reports
     exit status 3 without starting a process), provided the entries before it resolve. -/
-theorem required_missing_fails (objs : List Obj) (level : Nat) (a : ArgSpec) (v : Val)
+theorem required_missing_fails (look : Bytes → Lookup) (level : Nat) (a : ArgSpec) (v : Val)
     (hset : a.setIf.isEmpty = true) (hreq : a.required = true)
-    (hmiss : resolveMacros objs (level + 1) false a.value = .ok (v, true)) (pre post : List ArgSpec)
-    (hpre : ∀ x ∈ pre, ∃ o, resolveArg objs level x = .ok o) (cmd : Cmd) (base : CmdOut)
-    (hcmd : resolveCommand objs level cmd true = .ok base) :
-    resolveArg objs level a = .error .required ∧
-    resolveArguments objs level cmd (some (pre ++ a :: post)) = .error .required := by
-  have hfail : resolveArg objs level a = .error .required := by
+    (hmiss : resolveMacros look (level + 1) false a.value = .ok (v, true)) (pre post : List ArgSpec)
+    (hpre : ∀ x ∈ pre, ∃ o, resolveArg look level x = .ok o) (cmd : Cmd) (base : CmdOut)
+    (hcmd : resolveCommand look level cmd true = .ok base) :
+    resolveArg look level a = .error .required ∧
+    resolveArguments look level cmd (some (pre ++ a :: post)) = .error .required := by
+  have hfail : resolveArg look level a = .error .required := by
     simp [resolveArg, hset, hmiss, hreq, bind, Except.bind, pure, Except.pure, throw, throwThe, MonadExceptOf.throw]
   refine ⟨hfail, ?_⟩
-  have hargs : resolveArgs objs level (pre ++ a :: post) = .error .required := by
+  have hargs : resolveArgs look level (pre ++ a :: post) = .error .required := by
     induction pre with
     | nil => simp [resolveArgs, hfail, bind, Except.bind]
     | cons x xs ih =>
@@ -304,10 +257,10 @@ theorem required_missing_fails (objs : List Obj) (level : Nat) (a : ArgSpec) (v 
   simp [resolveArguments, hcmd, hargs, bind, Except.bind]
 
 -- non-vacuity: `-w $nx$` optional between two present arguments; the same entry `required`
-example : resolveArguments [] 0 (.arr [[47, 112]])
+example : resolveArguments (resolveMacro []) 0 (.arr [[47, 112]])
     (some [{ dkey := [45, 97], value := .str [120] }, { dkey := [45, 119], value := .str [36, 110, 120, 36] }, { dkey := [45, 122], value := .str [121] }])
     = .ok (.argv [[47, 112], [45, 97], [120], [45, 122], [121]]) := by decide
-example : resolveArguments [] 0 (.arr [[47, 112]])
+example : resolveArguments (resolveMacro []) 0 (.arr [[47, 112]])
     (some [{ dkey := [45, 97], value := .str [120] }, { dkey := [45, 119], value := .str [36, 110, 120, 36], required := true }])
     = .error .required := by decide
 
@@ -393,10 +346,10 @@ theorem model_result_meets_spec (exit : Int) (raw : Bytes) :
     simp only [specOutput, processFinished, handledOutput, h]
     split <;> simp
 
-theorem expand_plain_esc (objs : List Obj) (rec : Bytes → Res) (m v : Bytes) (hm : m ≠ [])
-    (hv : resolveMacro objs m = .found (.str v) false) :
-    expandMacro objs rec true m = .ok (.str (escapeShellArg v), false) := by
-  simp [expandMacro, hv, hm, escapeMacroShellArg, pure, Except.pure, bind, Except.bind]
+theorem expand_plain_esc (look : Bytes → Lookup) (rec : Bytes → Res) (m v : Bytes) (hm : m ≠ [])
+    (hv : look m = .found (.str v) false) :
+    expandMacro look rec true m = .ok (.str (escapeShellArg v), false) := by
+  simp [expandMacro, expandCore, hv, hm, escapeMacroShellArg, pure, Except.pure, bind, Except.bind]
 
 theorem map_fill_id (vals : List Bytes) (l : List Bytes) (h : ∀ w ∈ l, fillWord vals w = w) : l.map (fillWord vals) = l := by
   induction l with
@@ -411,13 +364,13 @@ theorem map_fill_id (vals : List Bytes) (l : List Bytes) (h : ∀ w ∈ l, fillW
     not proved — it needs a simulation between the lexer run on the template and on the resolved line;
     the driver evaluates the predicate on every end-to-end run instead.  For templates that put a macro
     inside double quotes the statement is false (`shell_quote_needs_unquoted_counterexample`, F-C09a). -/
-theorem model_string_command_meets_spec_partial (objs : List Obj) (fuel : Nat) (p m v : Bytes) (s : ShSt)
+theorem model_string_command_meets_spec_partial (look : Bytes → Lookup) (fuel : Nat) (p m v : Bytes) (s : ShSt)
     (hp : DOLLAR ∉ p) (hmd : DOLLAR ∉ m) (hm : m ≠ [])
-    (hv : resolveMacro objs m = .found (.str v) false)
+    (hv : look m = .found (.str v) false)
     (hpre : shRun {} p = .ok s) (hmode : s.mode = .unq) (hcur : s.cur = none)
     (hfill : ∀ w ∈ s.done, fillWord [v] w = w)
     (valueOf : Bytes → Option Bytes) (hval : valueOf m = some v) :
-    ∃ line argv, internalResolve objs (fuel + 1) true (p ++ DOLLAR :: (m ++ [DOLLAR])) = .ok (.str line, false)
+    ∃ line argv, internalResolve look (fuel + 1) true (p ++ DOLLAR :: (m ++ [DOLLAR])) = .ok (.str line, false)
       ∧ shWords line = .ok argv
       ∧ specStringCmd (p ++ DOLLAR :: (m ++ [DOLLAR])) valueOf argv = none := by
   refine ⟨p ++ escapeShellArg v, s.done.reverse ++ [v], ?_, (shell_quote_one_word p v s hpre hmode hcur).1, ?_⟩
@@ -429,8 +382,8 @@ theorem model_string_command_meets_spec_partial (objs : List Obj) (fuel : Nat) (
     · next h =>
       simp only [List.cons.injEq, Tok.lit.injEq, Tok.mac.injEq] at h
       obtain ⟨rfl, rfl, _⟩ := h
-      simp [expand_plain_esc objs _ _ v hm hv]
-    · simp [concatToks, expand_plain_esc objs _ m v hm hv, Val.scalarBytes, bind, Except.bind, pure, Except.pure]
+      simp [expand_plain_esc look _ _ v hm hv]
+    · simp [concatToks, expand_plain_esc look _ m v hm hv, Val.scalarBytes, bind, Except.bind, pure, Except.pure]
   · have htok := tokenize_macro p m [] hp hmd
     have hnil : tokenize [] = [.lit []] := rfl
     rw [hnil] at htok
